@@ -6,6 +6,8 @@
 // then keep receiving keys), and two different merge trees over the same leaves.
 // Oracle:
 //   - commutative + associative: both trees yield byte-identical sketches (MarshalBinary) with equal Count();
+//   - union: the merged sketch is byte-identical to the dense form of ONE sketch that was fed every
+//     key of every leaf (merge = register-wise maximum = union of the key sets);
 //   - idempotent: merging the result with itself, or with a leaf again (two leaves per case),
 //     changes nothing; leaf.Merge(leaf) equals the dense form of the leaf;
 //   - error bound: |Count(merged) - |union|| <= 4 * 1.04/sqrt(2^p) * |union| + 3, re-drawn with
@@ -344,6 +346,26 @@ func checkCase(cs caseSpec, salt uint64) (string, string) {
 	c1, c2 := m1.Count(), m2.Count()
 	if !bytes.Equal(b1, b2) || c1 != c2 {
 		return "merge-order-dependent", fmt.Sprintf("tree1 %+v gives Count=%d, tree2 %+v gives Count=%d, marshalled sketches equal=%v (|union|=%d)", cs.Tree1, c1, cs.Tree2, c2, bytes.Equal(b1, b2), len(truth))
+	}
+
+	// ---- merged sketch == sketch of the union: HLL registers are a function of the key SET
+	// (merge is the register-wise maximum), so adding every key of every leaf to ONE sketch must
+	// give, in dense form, exactly the merged sketch. This is what makes the merged estimate an
+	// estimate of the union; it also covers the Add-driven sparse->dense transition, which the
+	// union sketch crosses while the leaves may not.
+	{
+		u := newSketch(p)
+		for _, ls := range cs.Leaves {
+			for _, r := range ls.Runs {
+				for j := 0; j < r.Count; j++ {
+					u.Add(keyOf(salt, (r.Start+j*r.Stride)%cs.Domain))
+				}
+			}
+		}
+		du := denseOf(p, u)
+		if !bytes.Equal(marshal(du), b1) {
+			return "merge-differs-from-union-sketch", fmt.Sprintf("the merged sketch (Count %d) differs from one sketch fed all %d distinct keys directly (Count %d)", c1, len(truth), du.Count())
+		}
 	}
 
 	// ---- idempotent
